@@ -3,7 +3,7 @@
     (Proofs/Itf8.v), which is about the Gallina translation regenerated from the
     Go source. *)
 From Coq Require Import ZArith Lia List Bool.
-From Hts Require Import Base.Prim Base.DecBase Generated Model.Itf8Spec Proofs.Itf8
+From Hts Require Import Base.Prim Base.DecBase Generated Model.Itf8Spec Proofs.Itf8 Proofs.Ltf8
   Model.DecText Model.DecBam Model.DecCram Proofs.DecText Proofs.DecBam.
 Open Scope Z_scope.
 
@@ -103,14 +103,96 @@ Proof.
   destruct (er_full 4 r5) as [[x|] r6]; [|exact I]. destruct crc_ok; exact I.
 Qed.
 
+(** errorReader.ltf8, as itf8 with the nine byte buffer (LTF-8 facts: Proofs/Ltf8.v). *)
+Lemma er_ltf8_ok r : er_bytes r ->
+  exists v r', er_ltf8 r = Ok (v, r') /\ er_bytes r' /\ zlen (e_s r') <= zlen (e_s r).
+Proof.
+  intros Hb. unfold er_ltf8.
+  pose proof (er_full_props 1 r Hb ltac:(lia)) as P1.
+  destruct (er_full 1 r) as [[b0|] r1].
+  2: { destruct P1 as [A B]. eexists _, _. split; [reflexivity|]. split; [exact A|exact B]. }
+  destruct P1 as (Hb0 & Hl0 & Hb1 & Hlen1).
+  destruct (ltf8_no_overread_gen b0 Hb0) as (v & n & ok & -> & _ & Hne & _ & _). cbn [obind].
+  assert (b0 <> []) as Hnn by (intros ->; change (zlen (@nil Z)) with 0 in Hl0; lia).
+  destruct (Hne Hnn) as [Hn _]. pose proof (ltf8_spec_n_range (hd 0 b0)) as Hr. rewrite <- Hn in Hr.
+  destruct ok.
+  { eexists _, _. split; [reflexivity|]. split; [exact Hb1|lia]. }
+  rewrite chk_true by (rewrite andb_true_iff, !Z.leb_le; lia).
+  pose proof (er_full_props (n - 1) r1 Hb1 ltac:(lia)) as P2.
+  destruct (er_full (n - 1) r1) as [[b|] r2].
+  2: { destruct P2 as [A B]. eexists _, _. split; [reflexivity|]. split; [exact A|simpl; lia]. }
+  destruct P2 as (Hbb & Hlb & Hb2 & Hlen2).
+  rewrite chk_true by (rewrite andb_true_iff, !Z.leb_le; lia).
+  destruct (ltf8_no_overread_gen (b0 ++ b) (app_bytes _ _ Hb0 Hbb)) as (v2 & n2 & ok2 & -> & _). cbn [obind].
+  eexists _, _. split; [reflexivity|]. split; [exact Hb2|simpl; lia].
+Qed.
+
+Ltac step_itf8 r H :=
+  let v := fresh "v" in let r' := fresh "r" in let Hb' := fresh "Hb" in
+  destruct (er_itf8_ok r H) as (v & r' & -> & Hb' & _ & _); cbn [obind].
+Ltac step_ltf8 r H :=
+  let v := fresh "v" in let r' := fresh "r" in let Hb' := fresh "Hb" in
+  destruct (er_ltf8_ok r H) as (v & r' & -> & Hb' & _); cbn [obind].
+
+(** Container.readFrom, for both answers of the CRC comparison. *)
+Lemma container_read_total_gen crc_ok s : all_bytes s = true -> safe (container_read crc_ok s).
+Proof.
+  intros Hb. unfold container_read.
+  set (r0 := {| e_s := s; e_err := false |}). assert (er_bytes r0) as Hb0 by exact Hb.
+  pose proof (er_full_props 4 r0 Hb0 ltac:(lia)) as P.
+  destruct (er_full 4 r0) as [b r1].
+  assert (er_bytes r1) as Hb1 by (destruct b; [destruct P as (_ & _ & A & _)|destruct P as [A _]]; exact A).
+  step_itf8 r1 Hb1. step_itf8 r Hb2. step_itf8 r2 Hb3. step_itf8 r3 Hb4.
+  step_ltf8 r4 Hb5. step_ltf8 r5 Hb6. step_itf8 r6 Hb7.
+  pose proof (er_itf8slice_total_gen r7 Hb8) as Hs.
+  destruct (er_itf8slice r7) as [[lm r8]| | |]; try contradiction; [|exact I]. cbn [obind].
+  destruct (er_full 4 r8) as [[x|] r9]; [|exact I].
+  destruct (negb crc_ok); [exact I|]. destruct (e_err r9); exact I.
+Qed.
+
+Lemma itf8slice_loop_bytes fuel : forall r i n vs r', er_bytes r ->
+  itf8slice_loop r i n fuel = Ok (vs, r') -> er_bytes r'.
+Proof.
+  induction fuel as [|f IH]; intros r i n vs r' Hb H; [discriminate|].
+  cbn [itf8slice_loop] in H. destruct (negb (i <? n)); [inversion H; subst; exact Hb|].
+  destruct (er_itf8_ok r Hb) as (v & r1 & E & Hb1 & _ & _). rewrite E in H. cbn [obind] in H.
+  destruct (e_err r1).
+  - unfold chk in H. destruct ((0 <=? i) && (i <=? n)); [|discriminate]. inversion H; subst. exact Hb1.
+  - destruct (itf8slice_loop r1 (i + 1) n f) as [[vs1 r2]| | |] eqn:E2; cbn [obind] in H; try discriminate.
+    inversion H; subst. eapply IH; [exact Hb1|exact E2].
+Qed.
+
+Lemma er_itf8slice_bytes r vs r' : er_bytes r -> er_itf8slice r = Ok (vs, r') -> er_bytes r'.
+Proof.
+  intros Hb H. unfold er_itf8slice in H.
+  destruct (er_itf8_ok r Hb) as (n & r1 & E & Hb1 & _ & _). rewrite E in H. cbn [obind] in H.
+  destruct (e_err r1); [inversion H; subst; exact Hb1|].
+  destruct (n =? 0); [inversion H; subst; exact Hb1|].
+  destruct (n <? 0); [inversion H; subst; exact Hb1|].
+  unfold chk in H. destruct (make_ok n); [|discriminate].
+  eapply itf8slice_loop_bytes; [exact Hb1|exact H].
+Qed.
+
+(** Slice.readFrom up to the embedded reference id. *)
+Lemma slice_read_total_gen data : all_bytes data = true -> safe (slice_read data).
+Proof.
+  intros Hb. unfold slice_read.
+  set (r0 := {| e_s := data; e_err := false |}). assert (er_bytes r0) as Hb0 by exact Hb.
+  step_itf8 r0 Hb0. step_itf8 r Hb1. step_itf8 r1 Hb2. step_itf8 r2 Hb3.
+  step_ltf8 r3 Hb4. step_itf8 r4 Hb5.
+  pose proof (er_itf8slice_total_gen r5 Hb6) as Hs.
+  destruct (er_itf8slice r5) as [[ids r6]| | |] eqn:E; try contradiction; [|exact I]. cbn [obind].
+  pose proof (er_itf8slice_bytes _ _ _ Hb6 E) as Hb7.
+  step_itf8 r6 Hb7. exact I.
+Qed.
+
 (** Block.Value on any block, for any answer of the decompressors and of the
     header text library calls. *)
 Lemma block_value_safe_gen unz lib b :
   all_bytes (k_data b) = true -> (forall m d x, unz m d = Some x -> all_bytes x = true) ->
-  (k_typ b =? cram_mappedSliceHeader) = false ->
   safe (block_value unz lib b).
 Proof.
-  intros Hb Hunz Hns. unfold block_value. rewrite Hns.
+  intros Hb Hunz. unfold block_value.
   destruct (k_typ b =? cram_fileHeader).
   - apply safe_bind.
     { unfold expand_blockdata. destruct (k_method b =? cram_rawMethod); [exact I|].
@@ -130,7 +212,8 @@ Proof.
     destruct (zlen d - 4 <? e) eqn:Ee; [exact I|]. apply Z.ltb_ge in Ee.
     rewrite chk_true by (apply slice_ok_true; lia).
     apply unmarshal_header_text_total_gen.
-  - destruct ((k_method b =? cram_gzipMethod) || (k_method b =? cram_bzip2Method) || (k_method b =? cram_lzmaMethod)); [|exact I].
+  - destruct (k_typ b =? cram_mappedSliceHeader); [apply slice_read_total_gen, Hb|].
+    destruct ((k_method b =? cram_gzipMethod) || (k_method b =? cram_bzip2Method) || (k_method b =? cram_lzmaMethod)); [|exact I].
     apply safe_bind; [|intros; exact I].
     unfold expand_blockdata. destruct (k_method b =? cram_rawMethod); [exact I|].
     destruct ((k_method b =? cram_gzipMethod) || (k_method b =? cram_bzip2Method) || (k_method b =? cram_lzmaMethod)).
@@ -156,7 +239,7 @@ Qed.
 (** ParseAux returns a value or an error on every text, whatever strconv answers. *)
 Lemma parse_aux_total_gen lib text : safe (parse_aux lib text).
 Proof.
-  unfold parse_aux. destruct (zlen text <? 6) eqn:E6; [exact I|]. apply Z.ltb_ge in E6.
+  unfold parse_aux. destruct (zlen text <? 5) eqn:E6; [exact I|]. apply Z.ltb_ge in E6.
   rewrite chk_true by (apply inb_true; lia).
   destruct (negb (getz text 2 =? 58)); [exact I|].
   rewrite chk_true by (apply inb_true; lia).
@@ -179,8 +262,9 @@ Proof.
   { unfold make_ok. rewrite chk_true by (apply Z.leb_le; apply Z.div_pos; lia).
     apply safe_bind; [|intros; exact I]. apply hex_decode_safe; lia. }
   destruct (getz text 3 =? 66); [|exact I].
+  destruct (zlen txt =? 0) eqn:Ez; [exact I|]. apply Z.eqb_neq in Ez.
   apply safe_bind.
-  { destruct (negb (zlen txt =? 1)) eqn:E1; [|exact I]. apply negb_true_iff, Z.eqb_neq in E1.
+  { destruct (1 <? zlen txt) eqn:E1; [|exact I]. apply Z.ltb_lt in E1.
     rewrite chk_true by (apply inb_true; lia).
     destruct (negb (getz txt 1 =? 44)); [exact I|].
     rewrite chk_true by (apply slice_ok_true; lia). exact I. }
@@ -190,7 +274,8 @@ Proof.
   apply safe_bind; [apply b_elems_safe|intros; exact I].
 Qed.
 
-(** Before the fix the B branch indexed txt[1] without a length check. *)
+(** Before the fix the B branch indexed txt[1] without a length check; and with
+    the minimum length 5 an empty value reaches txt[0], hence the len(txt) == 0 test. *)
 Lemma parse_aux_B_short_would_panic : inb [99] 1 = false.
 Proof. reflexivity. Qed.
 
